@@ -119,26 +119,26 @@ Proof.
   set (st1 := odiv K (osub K (nth 1 hi 0) (nth 1 lo 0)) (ofnat K (s1 - 1))).
   set (st2 := odiv K (osub K (nth 2 hi 0) (nth 2 lo 0)) (ofnat K (s2 - 1))).
   (* cubes *)
-  assert (Esteps : (do steps <- (if use_cubes then do min_val <- pymin_list K [st0; st1; st2] ;; GOk (map (fun _ : Z => min_val) [0%Z; 1%Z; 2%Z])
-                                 else GOk [st0; st1; st2]) ;; GOk steps)
-                   = GOk (if use_cubes then repeat (vmin3 K [st0; st1; st2]) 3 else [st0; st1; st2])).
-  { destruct use_cubes; [|reflexivity]. cbn [pymin_list gbind fold_left map repeat]. unfold vmin3. cbn [tl hd fold_left].
-    rewrite !(pymin_omin (Hlaw eq_refl)). reflexivity. }
   set (steps := if use_cubes then repeat (vmin3 K [st0; st1; st2]) 3 else [st0; st1; st2]) in *.
   assert (Lsteps : length steps = 3) by (unfold steps; destruct use_cubes; reflexivity).
   match goal with |- gbind ?m ?k = _ => assert (Em : m = GOk steps) end.
   { destruct use_cubes; [|reflexivity]. cbn [pymin_list gbind fold_left map]. unfold steps, vmin3. cbn [tl hd fold_left repeat].
     rewrite !(pymin_omin (Hlaw eq_refl)). reflexivity. }
-  rewrite Em. cbn [gbind]. clear Em Esteps.
+  rewrite Em. cbn [gbind]. clear Em.
   (* the three ranges *)
   destruct (Elit steps ltac:(lia)) as (Est0 & Est1 & Est2).
   rewrite ?E0, ?E1. cbn [gbind].
   rewrite ?Elo0, ?Elo1, ?Elo2, ?Ehi0, ?Ehi1, ?Ehi2. cbn [gbind].
   rewrite Est0, Est1, Est2. cbn [gbind].
   rewrite !frange_tie.
-  destruct (Geom2D.frange K fuel (nth 0 lo 0) (nth 0 hi 0) (nth 0 steps 0)) as [r0| |]; cbn [res_to_gres gbind res_bind]; try reflexivity.
-  destruct (Geom2D.frange K fuel (nth 1 lo 0) (nth 1 hi 0) (nth 1 steps 0)) as [r1| |]; cbn [res_to_gres gbind res_bind]; try reflexivity.
-  destruct (Geom2D.frange K fuel (nth 2 lo 0) (nth 2 hi 0) (nth 2 steps 0)) as [r2| |]; cbn [res_to_gres gbind res_bind]; try reflexivity.
+  assert (Hnr : forall a b c, Geom2D.frange K fuel a b c <> Rejected).
+  { intros a b c. unfold Geom2D.frange. destruct (frange_loop K fuel a b c _ _ _); discriminate. }
+  destruct (Geom2D.frange K fuel (nth 0 lo 0) (nth 0 hi 0) (nth 0 steps 0)) as [r0| |] eqn:F0; cbn [res_to_gres gbind res_bind];
+    [|exfalso; exact (Hnr _ _ _ F0)|reflexivity].
+  destruct (Geom2D.frange K fuel (nth 1 lo 0) (nth 1 hi 0) (nth 1 steps 0)) as [r1| |] eqn:F1; cbn [res_to_gres gbind res_bind];
+    [|exfalso; exact (Hnr _ _ _ F1)|reflexivity].
+  destruct (Geom2D.frange K fuel (nth 2 lo 0) (nth 2 hi 0) (nth 2 steps 0)) as [r2| |] eqn:F2; cbn [res_to_gres gbind res_bind];
+    [|exfalso; exact (Hnr _ _ _ F2)|reflexivity].
   apply voxel_loops.
 Qed.
 End Tie.
